@@ -2,6 +2,7 @@
 A variable bound from such a place is recognised as a closure (and its calls go to the apply function) only if that type is the
 closure's environment struct."""
 import re
+from units.common import arm_guard
 from vlib.gen import Unit, Fn, Adt, Raw
 
 L = "crates/compiler/src/lift.rs"
@@ -24,6 +25,8 @@ UNIT = Unit(
              "map + collect assumed); `items.iter().map(|item| item.get_ty()).collect()` by rule iter_map_collect",
              "struct literal: the number of arguments is assumed not to exceed the number of declared fields (typing invariant; indexing would panic)"],
     items=[
+        arm_guard(L, "transform_expr", None, r"match expr \{",
+                  ['MonoExpr::EVar', 'MonoExpr::EPrim', 'MonoExpr::EConstr', 'MonoExpr::ETuple', 'MonoExpr::EArray', 'MonoExpr::EClosure', 'MonoExpr::ELet', 'MonoExpr::EMatch', 'MonoExpr::EIf', 'MonoExpr::EWhile', 'MonoExpr::EGo', 'MonoExpr::EConstrGet', 'MonoExpr::EUnary', 'MonoExpr::EBinary', 'MonoExpr::ECall', 'MonoExpr::EToDyn', 'MonoExpr::EDynCall', 'MonoExpr::EProj']),
         Adt(file="crates/compiler/src/tast.rs", kw="enum", name="Ty", rules=["attrs"]),
         Adt(file="crates/compiler/src/tast.rs", kw="struct", name="TastIdent", rules=["attrs"]),
         Adt(file="crates/compiler/src/common.rs", kw="struct", name="StructConstructor", rules=["attrs"]),
